@@ -287,6 +287,15 @@ Definition holds_C10 (reg : list (name * (name * Z))) (p o : obs) (m : msg) : Z 
             end
         end
       else if same_state p o then 0 else 3
+  | HookMulti _ =>
+      (* several swap-to-native events in one EVM transaction: for every token bound to a contract,
+         native supply + ERC20 total is what it was (every burned event was minted natively) *)
+      if o_code o =? 0 then
+        (if forallb (fun t => (t_contract t =? 0)
+                              || (osupply o (t_minunit t) + oerc20_total o (t_contract t)
+                                  =? osupply p (t_minunit t) + oerc20_total p (t_contract t))) (o_tokens p)
+         then 0 else 2)
+      else if same_state p o then 0 else 3
   | Deploy _ _ _ _ _ | UpgradeErc20 _ _ =>
       (* administrative messages move no value on either side *)
       if o_code o =? 0 then
